@@ -28,7 +28,7 @@ func defaultConfig() interp.Config {
 			"golang.org", "github.com", "go.uber.org", "mvdan.cc", "vendor",
 		},
 		InitAllow: []string{
-			modulePath, "internal/oserror", "io", "io/fs", "sync", "internal/bytealg*", "math/bits", "path", "path/filepath", "internal/filepathlite", "internal/stringslite",
+			modulePath, "internal/oserror", "io", "io/fs", "sync", "regexp", "internal/bytealg*", "math/bits", "path", "path/filepath", "internal/filepathlite", "internal/stringslite",
 			"github.com/FollowTheProcess/collections", "github.com/bmatcuk/doublestar", "github.com/juju/ansiterm/tabwriter",
 		},
 		Redirects: map[string]string{},
